@@ -35,7 +35,7 @@ import (
 )
 
 type Case struct {
-	Target   string `json:"target"`  // absent | empty | dropped | journal | wal-frames | wal-clean | leftover-journal
+	Target   string `json:"target"`  // absent | empty | dropped | journal | wal-frames | wal-clean | wal-unwritten-page | leftover-journal | hot-journal
 	TargetPS int    `json:"tps"`     // page size of the existing database
 	ImagePS  int    `json:"ips"`     // page size of the imported image
 	Pages    uint32 `json:"pages"`   // pages of the imported image
@@ -194,7 +194,7 @@ func run1(t *testing.T, c Case) (res Result) {
 				return
 			}
 			f.Close()
-		case "dropped", "journal", "wal-frames", "wal-clean", "leftover-journal", "hot-journal":
+		case "dropped", "journal", "wal-frames", "wal-clean", "wal-unwritten-page", "leftover-journal", "hot-journal":
 			if cur = mk(pager.RTx{Create: true, NewSize: 5, Final: "DELETE", Outcome: "commit"}, nil); cur == nil {
 				return
 			}
@@ -209,12 +209,18 @@ func run1(t *testing.T, c Case) (res Result) {
 					return
 				}
 				cur = &oracle.Image{PageSize: tps}
-			case "wal-frames", "wal-clean":
+			case "wal-frames", "wal-clean", "wal-unwritten-page":
 				if cur = mk(pager.RTx{ToWAL: true, Final: "DELETE", Outcome: "commit"}, cur); cur == nil {
 					return
 				}
 				conn.Close()
-				w := conn.RunWTx(pager.WTx{Frames: []uint32{1, 3, 6}, Outcome: "commit"}, cur)
+				tx := pager.WTx{Frames: []uint32{1, 3, 6}, Outcome: "commit"}
+				if c.Target == "wal-unwritten-page" {
+					// the transaction grows the database by two pages and writes only the second: the first (a free-list leaf
+					// allocated and freed again) is neither in the log nor - until a checkpoint extends it - in the file
+					tx = pager.WTx{Frames: []uint32{1, 2, 7}, NewSize: 7, FreeLeaves: true, Outcome: "commit"}
+				}
+				w := conn.RunWTx(tx, cur)
 				if w.Err != nil || !w.Committed {
 					res.Harness = fmt.Sprintf("wal setup failed: %v at %s", w.Err, w.ErrStep)
 					return
@@ -471,7 +477,7 @@ func TestCheck(t *testing.T) {
 		})
 	}
 	run := vlib.Start("C16", "model_checking")
-	targets := []string{"absent", "empty", "dropped", "journal", "wal-frames", "wal-clean", "leftover-journal", "hot-journal"}
+	targets := []string{"absent", "empty", "dropped", "journal", "wal-frames", "wal-clean", "wal-unwritten-page", "leftover-journal", "hot-journal"}
 	pss := []int{512, 4096}
 	pages := []uint32{1, 2, 3, 257}
 	if run.Thorough() {
@@ -547,7 +553,7 @@ func TestCheck(t *testing.T) {
 		"outcome_classes":               classes.Top(80),
 		"exhaustive":                    true,
 		"samples":                       samples,
-		"rule":                          "every (target, image) pair: 8 targets (incl. a dead application's hot journal) x page sizes x {valid images: page sizes x {1,2,3,257} pages x {rollback,WAL header}; 13 invalid inputs}; each pair is one history export -> import -> export -> replicate -> restart on a fresh 2-node cluster (transitions counts the three HTTP operations)",
+		"rule":                          "every (target, image) pair: 9 targets (incl. a dead application's hot journal and a WAL database with a page that is neither in the log nor in the file yet) x page sizes x {valid images: page sizes x {1,2,3,257} pages x {rollback,WAL header}; 13 invalid inputs}; each pair is one history export -> import -> export -> replicate -> restart on a fresh 2-node cluster (transitions counts the three HTTP operations)",
 	}
 	if classes.N() < 6 && run.NViolations() == 0 {
 		run.HarnessError("vacuous: %d classes", classes.N())
